@@ -230,6 +230,24 @@ def _discard_path(ctx):
     ctx.floor("C05.d", n, 8, "shared abort / discard obligations (C02.a, C02.c)")
     nd = core.adopt(ctx, c02, lambda o: o["rule"] == "C02.d" and "one-runner-call-per-path" in o["key"], "C05.d")
     ctx.floor("C05.d", nd, 3, "shared one-runner-call-per-apply-path obligations (C02.d): a counted reader always reaches the runner")
+    # a postponed command that is given up is aborted through the abort helper (setup, then cleanup): running the cleanup of
+    # a buffered command directly skips the setup that claims its pending metadata, so the cleanup releases the payload of
+    # whatever reaction is current instead and the command's own payload is never released
+    prog = ctx.prog
+    NMc = A.names(prog)
+    nrun = 0
+    for body in prog.bodies:
+        for b, t, fr in body.iter_calls():
+            if fr is None or lib.tail(mir.fn_name(fr), 2) != NMc["cleanup_run"] or not t["args"]:
+                continue
+            nrun += 1
+            os_ = origins(body, t["args"][0])
+            direct = [o for o in os_ if any(isinstance(x, str) and x == ".cleanup" for x in o[2:])]
+            ctx.check(not direct, "C05.d", "%s:buffered-cleanup-only-through-abort-helper" % lib.fkey(body), body.loc(b),
+                      "the cleanup that is run is the function's own cleanup value",
+                      "%s runs the cleanup stored in a buffered command directly (%s) instead of aborting the command through the abort helper (setup then cleanup)"
+                      % (lib.fkey(body), lib.origin_str(direct)))
+    ctx.floor("C05.d", nrun, 2, "sites that run a SystemCommandCleanup")
     # a postponed run releases the payload it was scheduled for, not a later one: the event trackers hand pending entries
     # out in arrival order (shared with C03.e) - otherwise a payload is dropped while its own reader has yet to run
     import c03
